@@ -147,6 +147,15 @@ type features struct {
 	tRing     *taint // more than 10 uncommitted writes to one register (KF-W11)
 }
 
+func readsReg(in isa.Inst, r isa.Reg) bool {
+	for _, x := range in.Reads() {
+		if x == r {
+			return true
+		}
+	}
+	return false
+}
+
 func featuresOf(c *core.Case) *features {
 	ref := isa.Exec(c.Prog, c.Init, 20000, true)
 	if !ref.End.WellFormed() {
@@ -268,7 +277,8 @@ func featuresOf(c *core.Case) *features {
 			f.ringOverflow = true
 			oRing = append(oRing, origin{pos: i, reg: rd, hasReg: true})
 		}
-		if pos, ok := slowAt[rd]; ok && i-pos <= 16 {
+		if pos, ok := slowAt[rd]; ok && i-pos <= 16 && !readsReg(in, rd) {
+			// (a younger writer that reads the register waits for the older one)
 			f.slowWaw = true
 			oSlow = append(oSlow, origin{pos: i, reg: rd, hasReg: true})
 		}
@@ -293,7 +303,7 @@ func featuresOf(c *core.Case) *features {
 		}
 		for j := i + 1; j < n && j <= i+6; j++ {
 			rd2, w2 := inst(j).Writes()
-			if !w2 || rd2 != rd {
+			if !w2 || rd2 != rd || readsReg(inst(j), rd) {
 				continue
 			}
 			for k := j + 1; k < n && k <= j+8; k++ {
@@ -334,6 +344,11 @@ func featuresOf(c *core.Case) *features {
 	}
 	for i := 0; i < n; i++ {
 		ld := inst(i)
+		if ld.Op.IsStore() && (rewritten(ld.Rs1, i, 8) || rewritten(ld.Rs2, i, 8)) {
+			// a store can sit in the execute bus behind busy units; it reads its
+			// registers when it finally executes
+			victim(i)
+		}
 		if !ld.Op.IsLoad() {
 			continue
 		}
